@@ -30,16 +30,6 @@ def templateOk (v : Nat) : Bool :=
   t.n == x.n && t.cells.size == x.n * x.n && templateTraps v == [] &&
   (List.range (x.n * x.n)).all fun k => templateCellOk x (k / x.n) (k % x.n) (t.cells.getD k 0)
 
-/-- the version-information cells of the blank symbol carry the BCH(18,6) word of the version, most
-significant bit first in the order of Figure 26, in both copies (versions 7..40) -/
-def versionCellsOk (v : Nat) : Bool :=
-  let t := template v
-  let n := Regions.side v
-  v < 6 || ((Regions.versionCells n).zipIdx.all fun (rc, i) =>
-    t.get rc.1 rc.2 == mk ((BCH.version18 (v + 1) >>> (17 - i % 18)) % 2 == 1) Region.version.code)
-
-theorem versionCellsOk_all : (List.range 40).all versionCellsOk = true := by native_decide
-
 theorem templateOk_all : (List.range 40).all templateOk = true := by native_decide
 
 end FastQr.Finite
